@@ -90,6 +90,23 @@ func (c *Cell) String() string {
 	return "<NULL>"
 }
 
+// valueKey returns a text that is the same for two cells exactly when they hold
+// the same value. It is String(), except that time anchors are written in UTC:
+// one instant spelled in two time zones is one value.
+func (c *Cell) valueKey() string {
+	if c.S == nil && c.N == nil {
+		if c.P != nil {
+			if ta, err := c.P.TimeAnchor(); err == nil && ta != nil {
+				return fmt.Sprintf("%q@[%s]", c.P.ID(), ta.UTC().Format(time.RFC3339Nano))
+			}
+		}
+		if c.P == nil && c.L == nil && c.T != nil {
+			return c.T.UTC().Format(time.RFC3339Nano)
+		}
+	}
+	return c.String()
+}
+
 // Row represents a collection of cells.
 type Row map[string]*Cell
 
@@ -782,6 +799,9 @@ type countDistinctAcc struct {
 // Accumulate takes the given value and accumulates it to the current state.
 func (c *countDistinctAcc) Accumulate(v interface{}) (interface{}, error) {
 	vs := fmt.Sprintf("%v", v)
+	if cell, ok := v.(*Cell); ok && cell != nil {
+		vs = cell.valueKey()
+	}
 	c.state[vs]++
 	return int64(len(c.state)), nil
 }
@@ -988,7 +1008,7 @@ func (t *Table) Reduce(cfg SortConfig, aaps []AliasAccPair) error {
 	id := func(r Row) string {
 		res := bytes.NewBufferString("")
 		for _, c := range cfg {
-			res.WriteString(r[c.Binding].String())
+			res.WriteString(r[c.Binding].valueKey())
 			res.WriteString(";")
 		}
 		return res.String()
